@@ -24,8 +24,9 @@ ASSUME \A s \in 1..Len(Spectra) : \A a, b \in 1..M : Ev(s)[a] # 0 /\ (a # b => E
 
 Diag(e) == [r \in 1..M |-> [c \in 1..M |-> IF r = c THEN e[r] ELSE 0]]
 Elem(i, j, s) == [r \in 1..M |-> [c \in 1..M |-> IF r = c THEN 1 ELSE IF r = i /\ c = j THEN s ELSE 0]]
-Col(A, k) == [r \in 1..M |-> A[r][k]]
-Mul(A, B) == TLCEval(MatMul(A, B))
+Col(A, k) == TLCEval([r \in 1..M |-> A[r][k]])
+\* deep TLCEval: TLC keeps [i \in S |-> e] lazy and would re-evaluate a chain of products entry by entry
+Mul(A, B) == TLCEval([i \in 1..Len(A) |-> TLCEval([j \in 1..Len(B[1]) |-> ISum([k \in 1..Len(B) |-> A[i][k] * B[k][j]])])])
 T == Mul(Mul(F, Diag(Ev(sp))), Finv)
 
 Ops == {<<i, (i % M) + 1, 1>> : i \in 1..M} \cup {<<(i % M) + 1, i, 0 - 1>> : i \in 1..M}
@@ -33,11 +34,12 @@ Ops == {<<i, (i % M) + 1, 1>> : i \in 1..M} \cup {<<(i % M) + 1, i, 0 - 1>> : i 
 \* the walk starts from a fixed dense unimodular frame (a product of shears, inverse kept alongside)
 Frame0 == [n \in 1..(2 * M) |-> IF n <= M THEN <<n, (n % M) + 1, 1>>
                                 ELSE <<((n - M) % M) + 1, n - M, IF n % 2 = 0 THEN 0 - 1 ELSE 2>>]
-RECURSIVE Build(_, _)
-Build(pair, n) == IF n > Len(Frame0) THEN pair
-                  ELSE LET o == Frame0[n]
-                       IN Build(<<Mul(pair[1], Elem(o[1], o[2], o[3])), Mul(Elem(o[1], o[2], 0 - o[3]), pair[2])>>, n + 1)
-F0 == Build(<<IdMat(M), IdMat(M)>>, 1)
+RECURSIVE BuildTo(_)
+BuildTo(n) == IF n = 0 THEN <<IdMat(M), IdMat(M)>>
+              ELSE LET prev == TLCEval(BuildTo(n - 1))
+                       o == Frame0[n]
+                   IN TLCEval(<<Mul(prev[1], Elem(o[1], o[2], o[3])), Mul(Elem(o[1], o[2], 0 - o[3]), prev[2])>>)
+F0 == BuildTo(2 * M)
 
 Init == F = F0[1] /\ Finv = F0[2] /\ sp \in 1..Len(Spectra) /\ len = 0
 Shear(o) == /\ len < MaxLen
